@@ -320,6 +320,18 @@ def run_unit(ctx, name, **kw):
         run_hypothesis(ctx, "invlarge", strat, body, kw["examples"])
     elif name == "jacobi-large":
         smallp = [p for p in RN.sieve(2000) if p > 2]
+        # numerators with long runs of trailing zero bits (the factor-of-two rule applied e times), odd and even e,
+        # against moduli of every class mod 8
+        mods = [(3, [(3, 1)]), (5, [(5, 1)]), (7, [(7, 1)]), (17, [(17, 1)]), (15, [(3, 1), (5, 1)]), (21, [(3, 1), (7, 1)]),
+                (45, [(3, 2), (5, 1)]), (1009 * 1013, [(1009, 1), (1013, 1)])]
+        for cname in gen.NAMED:
+            dm = gen.named(cname)
+            mods.append((dm.p, [(dm.p, 1)]))
+            mods.append((dm.n, [(dm.n, 1)]))
+        for n, f in mods:
+            for e in list(range(0, 140)) + [191, 192, 193, 255, 256, 257, 511, 512, 513, 1023, 1024, 1025]:
+                for m in (1, 3, -1, 5 * n + 7):
+                    check_jacobi(ctx, m << e, n, f)
 
         def body(c, v):
             picks, bigbits, bigx, a, sign = v
